@@ -229,9 +229,7 @@ def handleMarkup (args : List Json) : Json :=
   | [.str "escape", a] => (match t? a with | some a => tstrJson ⟨escT a, true⟩ | _ => jerr "bad-case")
   | [.str "join", sep, items] =>
     (match t? sep, (asArr? items).bind (mapM? parseTStr) with
-     | some sep, some items =>
-       if sep.safe then tstrJson ⟨LiquidVerif.Filters.joinStr sep.chars (items.map escT), true⟩
-       else tstrJson ⟨LiquidVerif.Filters.joinStr sep.chars (items.map (·.chars)), false⟩
+     | some sep, some items => tstrJson (joinT sep items)
      | _, _ => jerr "bad-case")
   | [.str "replace", s, old, new, first] =>
     (match t? s, t? old, t? new, asBool? first with
